@@ -339,4 +339,140 @@ theorem poolMug_takes {w : World} {p : Pid} {pl : Nat} {x : Pool} (hi : PoolInv 
   · rw [(PSt.init hi hv).heldOf, hk1]
     exact hamt1
 
+/-! ### the whole mugging loop -/
+
+/-- what is still to be claimed after the loop -/
+def remaining (r : Option Nat) : Nat := match r with | none => 0 | some k => k
+
+/-- a process is never its own victim: its record carries its own priority -/
+theorem mug_not_self {w : World} {p : Pid} {pl : Nat} {x : Pool} (hi : PoolInv w) (hx : w.pools[pl]? = some x)
+    (hc : x.holders.count ≠ 0) (hlt : (x.holders.tag 1).i < (w.proc p).prio) :
+    (x.holders.tag 1).key ≠ p + 1 ∧ (w.proc ((x.holders.tag 1).key - 1)).prio < (w.proc p).prio := by
+  have vok := (hi.2 pl _ (poolView_of_get hx)).1
+  have hmem : KPQ.norm (x.holders.tag 1) ∈ abs x.holders := (HashHeap.mem_abs _ _).2 ⟨1, ⟨Nat.le_refl _, by omega⟩, rfl⟩
+  have hpr : (x.holders.tag 1).i = (w.proc ((x.holders.tag 1).key - 1)).prio := vok.prio (KPQ.norm (x.holders.tag 1)) hmem
+  refine ⟨?_, by rw [← hpr]; exact hlt⟩
+  intro hk
+  rw [hk] at hpr
+  simp at hpr
+  omega
+
+/-- **the mugging loop as a whole**: it keeps the invariant, and what the caller holds afterwards plus what is still to be
+    claimed equals what it held before plus the claim — the loop hands the caller exactly `rem − remaining` -/
+theorem poolMug_total : ∀ (fuel : Nat) (w : World) (p : Pid) (pl rem : Nat), PoolInv w → p < w.procs.size → 0 < rem →
+    PoolInv (poolMug fuel w p pl rem).1 ∧ (poolMug fuel w p pl rem).1.procs.size = w.procs.size ∧
+    heldOf (poolMug fuel w p pl rem).1 pl p + remaining (poolMug fuel w p pl rem).2 = heldOf w pl p + rem := by
+  intro fuel
+  induction fuel with
+  | zero => intro w p pl rem hi _ _; exact ⟨hi, rfl, rfl⟩
+  | succ n ih =>
+    intro w p pl rem hi hp hrem
+    unfold Sim.poolMug
+    split
+    · exact ⟨hi, rfl, rfl⟩
+    · rename_i x hx
+      split
+      · exact ⟨hi, rfl, rfl⟩
+      · rename_i hc
+        split
+        · rename_i top hpeek
+          split
+          · rename_i hlt
+            have hv := poolView_of_get hx
+            have vok := (hi.2 pl _ hv).1
+            have hwf : WF holder_queue_check x.holders := vok.wf
+            have htop : top = x.holders.tag 1 := by
+              have := HashHeap.peek_spec hwf (by omega : 0 < x.holders.count)
+              rw [this] at hpeek; injection hpeek with e; injection e with e; exact e.symm
+            subst htop
+            obtain ⟨hns, _⟩ := mug_not_self hi hx hc hlt
+            obtain ⟨h1, hdq, hst, hsum1, hoth1, hvic, hloot⟩ := (PSt.init hi hv).mug hx (by omega)
+            rw [hdq]
+            dsimp only
+            generalize hw2 : (removeHeld { w with pools := w.pools.set! pl { x with holders := h1 } }
+              ((x.holders.tag 1).key - 1) (HoldRef.pool pl)).1 = w2 at hst ⊢
+            have st3 := hst w2.now (w2.proc ((x.holders.tag 1).key - 1)).prio
+            have hheld3 : amountOf (abs h1) (p + 1) = heldOf w pl p := by
+              rw [(PSt.init hi hv).heldOf]
+              exact hoth1 (p + 1) (fun e => hns e.symm)
+            split
+            · rename_i hlt2
+              obtain ⟨h2, st4, hsum2, hamt2, _⟩ := st3.update hi.1 hp (x.holders.tag 1).item.b hloot
+              dsimp only at hsum2 hamt2
+              have hi4 : PoolInv _ := st4.close hi (by
+                have := vok.sum; simp only [Pool.view] at this ⊢; omega) vok.inCap
+              obtain ⟨a1, a2, a3⟩ := ih _ _ _ _ hi4 (by rw [st4.size]; exact hp) (by omega : 0 < rem - (x.holders.tag 1).item.b)
+              refine ⟨a1, a2.trans st4.size, ?_⟩
+              rw [a3, st4.heldOf, hamt2, hheld3]
+              omega
+            · rename_i hlt2
+              obtain ⟨h2, st4, hsum2, hamt2, _⟩ := st3.update hi.1 hp rem hrem
+              dsimp only at hsum2 hamt2
+              have hget : ∀ w4 : World, poolView w4 pl = some ⟨x.cap, x.inUse, h2⟩ →
+                  (w4.pools.getD pl x).inUse = x.inUse := by
+                intro w4 hv4
+                obtain ⟨y, hy, hyv⟩ := poolView_some.1 hv4
+                rw [Array.getD_eq_getD_getElem?, hy]
+                have : y.view.inUse = x.inUse := by rw [hyv]
+                exact this
+              rw [hget _ st4.upd.view]
+              have st5 := ((st4.setInUse (x.inUse - ((x.holders.tag 1).item.b - rem))).record pl).same (signal_same _ x.guard)
+              refine ⟨st5.close hi ?_ ?_, st5.size, ?_⟩
+              · have := vok.sum; simp only [Pool.view] at this ⊢; omega
+              · have := vok.inCap; simp only [Pool.view] at this ⊢; omega
+              · rw [st5.heldOf]
+                show amountOf (abs h2) (p + 1) + 0 = _
+                rw [hamt2, hheld3]; omega
+          · exact ⟨hi, rfl, rfl⟩
+        · exact ⟨hi, rfl, rfl⟩
+
+/-- **preempt_ok**: if a pass of `cmb_resourcepool_preempt`'s loop returns, it returns success, and the caller then holds
+    exactly the outstanding claim `rem` more than before the pass — whatever was free plus what was taken from any
+    number of victims -/
+theorem poolLoop_preempt_ok {w : World} {p : Pid} {pl : Nat} {x : Pool} (hi : PoolInv w) (hp : p < w.procs.size)
+    (hx : w.pools[pl]? = some x) (rem ini : Nat) (hrem : 0 < rem) {sig : Int} {extra : String}
+    (hr : (poolLoop w p pl rem ini true).2 = .ret sig extra) :
+    sig = sigSuccess ∧ heldOf (poolLoop w p pl rem ini true).1 pl p = heldOf w pl p + rem := by
+  by_cases hav : x.cap - x.inUse ≥ rem
+  · obtain ⟨h1, h2, _⟩ := poolLoop_direct hi hp hx rem ini true hav hrem
+    rw [h1] at hr
+    injection hr with hs _
+    exact ⟨hs.symm, h2⟩
+  · -- take what is free, then mug
+    have hv := poolView_of_get hx
+    have h1 : ∃ w1 rem1, (if x.cap - x.inUse > 0 then
+          (poolUpdateRecord (recordPool (setPoolInUse w pl (x.inUse + (x.cap - x.inUse))) pl) pl p (x.cap - x.inUse),
+            rem - (x.cap - x.inUse)) else (w, rem)) = (w1, rem1) ∧ PoolInv w1 ∧ w1.procs.size = w.procs.size ∧ 0 < rem1 ∧
+          heldOf w1 pl p + rem1 = heldOf w pl p + rem := by
+      have vok := (hi.2 pl _ hv).1
+      have hsum : x.inUse = amounts (abs x.holders) := vok.sum
+      have hcap : x.inUse ≤ x.cap := vok.inCap
+      split
+      · rename_i hpos
+        obtain ⟨h2, st3, hsum2, hamt2, _⟩ :=
+          (((PSt.init hi hv).setInUse (x.inUse + (x.cap - x.inUse))).record pl).update hi.1 hp (x.cap - x.inUse) hpos
+        dsimp only [Pool.view] at hsum2 hamt2
+        refine ⟨_, _, rfl, st3.close hi ?_ ?_, st3.size, by omega, ?_⟩
+        · show x.inUse + (x.cap - x.inUse) = amounts (abs h2); omega
+        · show x.inUse + (x.cap - x.inUse) ≤ x.cap; omega
+        · rw [st3.heldOf, (PSt.init hi hv).heldOf]
+          show amountOf (abs h2) (p + 1) + (rem - (x.cap - x.inUse)) = amountOf (abs x.holders) (p + 1) + rem
+          rw [hamt2]; omega
+      · exact ⟨w, rem, rfl, hi, rfl, hrem, rfl⟩
+    obtain ⟨w1, rem1, he1, hi1, hs1, hr1, hh1⟩ := h1
+    obtain ⟨hi2, hs2, hh2⟩ := poolMug_total (x.holders.count + 1) w1 p pl rem1 hi1 (by rw [hs1]; exact hp) hr1
+    unfold poolLoop at hr ⊢
+    simp only [hx, hav, if_false, if_true, he1] at hr ⊢
+    cases hm : (poolMug (x.holders.count + 1) w1 p pl rem1).2 with
+    | none =>
+      simp only [hm] at hr ⊢
+      injection hr with hs _
+      refine ⟨hs.symm, ?_⟩
+      rw [hm] at hh2
+      simp only [remaining] at hh2
+      omega
+    | some r =>
+      simp only [hm] at hr
+      cases hr
+
 end CimbaModel.Sim
